@@ -1,6 +1,7 @@
-// V-DESER: the deserialization layer (readers, cursors, trait-level contracts
-// of DeserializeInner, generic sums, ranges, deep-sequence loops).
-// Generated file: the template is /verif/contracts/V-DESER.rs.tpl.
+// V-SER: the serialization layer against the same grammar the deserialization
+// layer is checked against (C01 for all values and lengths: `parse(enc(v)) = v`;
+// C13: a failed write leaves a prefix of the encoding; C07 padding).
+// Generated file: the template is /verif/contracts/V-SER.rs.tpl.
 #![feature(allocator_api)]
 #![allow(unused_imports, unused_variables, dead_code)]
 use vstd::prelude::*;
@@ -21,10 +22,17 @@ pub fn pad_align_to(value: usize, align_to: usize) -> (r: usize)
 
 pub assume_specification<T>[ <[T]>::as_ptr ](s: &[T]) -> (r: *const T);
 
-
 //@include inc/deser_base.tpl
 
 //@include inc/deser_impls.tpl
+
+// @@V-SER: obligations counted from here (the text above is the V-DESER unit, counted there)
+
+//@include inc/ser_prelude.rs
+
+//@include inc/ser_base.tpl
+
+//@include inc/ser_impls.tpl
 
 } // verus!
 fn main() {}
